@@ -73,6 +73,11 @@ fn main() {
     if std::env::var("DSV_WORKER").is_ok() {
         std::process::exit(worker(prop, mode, args.get(3).map(|s| s.as_str())));
     }
+    if mode == "--fuzz" {
+        // ./check Cxx --fuzz [runs]: only the libFuzzer supplement
+        let runs: u64 = args.get(3).and_then(|s| s.parse().ok()).unwrap_or(200_000);
+        std::process::exit(fuzz_stage(prop, runs));
+    }
     // parent
     let budget = match mode {
         "quick" => 1500,
@@ -157,7 +162,135 @@ fn main() {
             }
         },
     };
+    // libFuzzer supplement (thorough tier of C01 / C10 / C20 only; DSV_FUZZ=0 switches it off)
+    let code = if code == 0 && mode == "thorough" && dsv::fuzz::target_of(prop).is_some() && std::env::var("DSV_FUZZ").map_or(true, |v| v != "0") {
+        let runs = std::env::var("DSV_FUZZ_RUNS").ok().and_then(|s| s.parse().ok()).unwrap_or(3_000_000u64);
+        fuzz_stage(prop, runs)
+    } else {
+        code
+    };
     std::process::exit(code);
+}
+
+/// Build and run the libFuzzer target of a property on a fresh corpus seeded by the harness.
+/// 0 = no crash, 1 = VIOLATION printed (artifact converted into a replay file), and 0 with a
+/// "fuzz stage skipped" line if the nightly toolchain step fails for environmental reasons.
+fn fuzz_stage(prop: &str, runs: u64) -> i32 {
+    let target = match dsv::fuzz::target_of(prop) {
+        Some(t) => t,
+        None => {
+            eprintln!("no fuzz target for {}", prop);
+            return 2;
+        }
+    };
+    let root = verif_root();
+    let fuzz_dir = root.join("fuzz");
+    let corpus = fuzz_dir.join("corpus").join(target);
+    let artifacts = fuzz_dir.join("artifacts").join(target);
+    let _ = std::fs::remove_dir_all(&corpus);
+    let _ = std::fs::remove_dir_all(&artifacts);
+    let _ = std::fs::create_dir_all(&corpus);
+    let _ = std::fs::create_dir_all(&artifacts);
+    for (k, bytes) in dsv::fuzz::seed_corpus(prop).iter().enumerate() {
+        let _ = std::fs::write(corpus.join(format!("seed-{:03}", k)), bytes);
+    }
+    let dict = fuzz_dir.join("c01.dict");
+    let _ = std::fs::write(&dict, dsv::fuzz::C01_DICT);
+    let seed = seed_from_env() % 2_000_000_000 + 1;
+    let start = Instant::now();
+    let build = Command::new("cargo").args(["+nightly", "fuzz", "build", "--fuzz-dir", fuzz_dir.to_str().unwrap(), target]).current_dir(root.join("harness")).env("CARGO_NET_OFFLINE", "true").env("RUSTFLAGS", "--cfg odf_rust_dsymbols_verif").stdout(Stdio::null()).stderr(Stdio::piped()).output();
+    match build {
+        Ok(o) if o.status.success() => {}
+        Ok(o) => {
+            let err = String::from_utf8_lossy(&o.stderr);
+            println!("[{}] fuzz stage skipped: `cargo +nightly fuzz build {}` failed: {}", prop, target, err.lines().rev().take(3).collect::<Vec<_>>().join(" | "));
+            return 0;
+        }
+        Err(e) => {
+            println!("[{}] fuzz stage skipped: cannot run cargo: {}", prop, e);
+            return 0;
+        }
+    }
+    let mut cmd = Command::new("cargo");
+    cmd.args(["+nightly", "fuzz", "run", "--fuzz-dir", fuzz_dir.to_str().unwrap(), target, corpus.to_str().unwrap(), "--"])
+        .arg(format!("-runs={}", runs))
+        .arg(format!("-seed={}", seed))
+        .arg("-max_len=512")
+        .arg("-len_control=0")
+        .arg("-timeout=60")
+        .arg("-print_final_stats=1")
+        .arg(format!("-artifact_prefix={}/", artifacts.display()));
+    if prop == "C01" {
+        cmd.arg(format!("-dict={}", dict.display()));
+    }
+    let out = cmd.current_dir(root.join("harness")).env("CARGO_NET_OFFLINE", "true").env("RUSTFLAGS", "--cfg odf_rust_dsymbols_verif").stdout(Stdio::piped()).stderr(Stdio::piped()).output();
+    let out = match out {
+        Ok(o) => o,
+        Err(e) => {
+            println!("[{}] fuzz stage skipped: cannot run the target: {}", prop, e);
+            return 0;
+        }
+    };
+    let log = String::from_utf8_lossy(&out.stderr).to_string();
+    let stat = |key: &str| log.lines().find(|l| l.contains(key)).and_then(|l| l.split_whitespace().last().map(|x| x.to_string())).unwrap_or_default();
+    let execs = stat("stat::number_of_executed_units");
+    let cov = log.lines().rev().find(|l| l.contains(" cov: ")).map(|l| l.split_whitespace().skip_while(|w| *w != "cov:").nth(1).unwrap_or("?").to_string()).unwrap_or_default();
+    // a crash artifact?
+    let arts: Vec<_> = std::fs::read_dir(&artifacts).map(|rd| rd.filter_map(|e| e.ok().map(|e| e.path())).collect()).unwrap_or_default();
+    let crash = arts.iter().find(|p| p.file_name().map_or(false, |n| { let n = n.to_string_lossy(); n.starts_with("crash-") || n.starts_with("oom-") }));
+    let slow = arts.iter().any(|p| p.file_name().map_or(false, |n| { let n = n.to_string_lossy(); n.starts_with("timeout-") || n.starts_with("slow-unit-") }));
+    let mut ev_note = json!({"target": target, "runs_requested": runs, "executions": execs, "coverage_edges": cov, "seed": seed, "wall_s": start.elapsed().as_secs_f64(), "crash": crash.is_some()});
+    let code = if let Some(a) = crash {
+        let bytes = std::fs::read(a).unwrap_or_default();
+        match dsv::fuzz::artifact_to_replay(prop, &bytes) {
+            Some(doc) => {
+                let dir = root.join("replays");
+                let _ = std::fs::create_dir_all(&dir);
+                let path = dir.join(format!("{}-fuzz-{}.json", prop, a.file_name().unwrap().to_string_lossy()));
+                let _ = std::fs::write(&path, serde_json::to_string_pretty(&doc).unwrap());
+                // confirm through the ordinary replay path
+                if confirm_failed(prop, &path) || replay_dies(prop, &path) {
+                    println!("VIOLATION property={} replay={}", prop, path.display());
+                    ev_note["replay"] = json!(path.to_string_lossy());
+                    1
+                } else {
+                    println!("[{}] fuzz stage: crash artifact {} does not reproduce through the replay path (ignored)", prop, a.display());
+                    0
+                }
+            }
+            None => 0,
+        }
+    } else if !out.status.success() && !slow {
+        println!("[{}] fuzz stage skipped: the target ended with {:?} without an artifact: {}", prop, out.status.code(), log.lines().rev().take(2).collect::<Vec<_>>().join(" | "));
+        0
+    } else {
+        if slow {
+            println!("[{}] fuzz stage: a unit exceeded the 60 s timeout (slowness is not a violation)", prop);
+        }
+        println!("[{}] fuzz stage: {} executions of {}, {} coverage edges, no crash, {:.0}s", prop, execs, target, cov, start.elapsed().as_secs_f64());
+        0
+    };
+    // append the fuzz statistics to the evidence file written by the worker
+    let evp = root.join("evidence").join(format!("{}.json", prop));
+    if let Some(mut ev) = std::fs::read_to_string(&evp).ok().and_then(|t| serde_json::from_str::<Value>(&t).ok()) {
+        ev["coverage"]["libfuzzer_supplement"] = ev_note;
+        if code == 1 {
+            ev["violations"] = json!(ev["violations"].as_i64().unwrap_or(0) + 1);
+        }
+        let _ = std::fs::write(&evp, serde_json::to_string_pretty(&ev).unwrap() + "\n");
+    }
+    code
+}
+
+fn replay_dies(prop: &str, path: &std::path::Path) -> bool {
+    Command::new(std::env::current_exe().unwrap())
+        .args([prop, "--replay", path.to_str().unwrap()])
+        .env("DSV_WORKER", "1")
+        .stdout(Stdio::null())
+        .stderr(Stdio::null())
+        .status()
+        .map(|s| !matches!(s.code(), Some(0 | 1 | 2)))
+        .unwrap_or(false)
 }
 
 fn confirm_failed(prop: &str, path: &std::path::Path) -> bool {
